@@ -7,6 +7,7 @@ import ZbossModel.Dispatch
 import ZbossModel.OpsCodec
 import ZbossModel.OpsCStruct
 import ZbossModel.OpsApp
+import ZbossModel.OpsHost
 /-! Dispatch of line-protocol operations to the executable model. -/
 namespace Zboss.Ops
 open Zboss Zboss.Crc
@@ -211,6 +212,9 @@ def handle : List String → String
               | none =>
                 match OpsApp.handle toks with
                 | some r => r
-                | none => "bad-op"
+                | none =>
+                  match OpsHost.handle toks with
+                  | some r => r
+                  | none => "bad-op"
 
 end Zboss.Ops
